@@ -52,6 +52,13 @@ def first_diffs(d):
         out.append({"kind": "classes-vs-complex-types",
                     "only_in_bindings": sorted(set(d["binding_classes"]) - set(d["complex_types"])),
                     "only_in_schema": sorted(set(d["complex_types"]) - set(d["binding_classes"]))})
+    if d["name_table_regen"] != d["name_table_shipped"]:
+        a, b = dict(map(tuple, d["name_table_regen"])), dict(map(tuple, d["name_table_shipped"]))
+        out.append({"kind": "name-table", "class": "", "method": "generateds_config",
+                    "differences": [[k, b.get(k), a.get(k)] for k in sorted(set(a) | set(b)) if a.get(k) != b.get(k)][:20],
+                    "meaning": "[xml name, member name in the shipped name_table.csv, member name regeneration would now use]"})
+    for v in d["member_name_violations"][:10]:
+        out.append({"kind": "member-name", "class": v[0], "method": v[1], "bindings": v[2], "table": v[3]})
     if d["exported_classes"] != d["complex_types"]:
         out.append({"kind": "public-export-vs-complex-types",
                     "not_exported": sorted(set(d["complex_types"]) - set(d["exported_classes"])),
@@ -85,6 +92,9 @@ def run(ck):
            "  rf_src := %s;" % _items(d["src"]),
            "  rf_nml := %s;" % _items(d["nml"]),
            "  rf_dangling := %s;" % coq_list(["(%s, %s)" % (coq_str(a), coq_str(b)) for a, b in d["dangling_specs"]]),
+           "  rf_name_table_regen := %s;" % coq_list(["(%s, %s)" % (coq_str(a), coq_str(b)) for a, b in d["name_table_regen"]]),
+           "  rf_name_table_shipped := %s;" % coq_list(["(%s, %s)" % (coq_str(a), coq_str(b)) for a, b in d["name_table_shipped"]]),
+           "  rf_member_name_violations := %s;" % coq_list(["(%s, %s)" % (coq_str(v[0]), coq_str(v[1])) for v in d["member_name_violations"]]),
            "  rf_binding_classes := %s;" % coq_list([coq_str(x) for x in d["binding_classes"]]),
            "  rf_exported_classes := %s;" % coq_list([coq_str(x) for x in d["exported_classes"]]),
            "  rf_complex_types := %s;" % coq_list([coq_str(x) for x in d["complex_types"]]),
